@@ -78,6 +78,7 @@ type Item struct {
 	Maps  []MapDecl
 	Nets  []NetDecl
 	Why   string
+	Aux   bool // stored under a key shape (owner, wildcard flag, location) that another item already has and not consulted for additional-section processing: left out of the larger RocksDB files
 }
 
 func fq(n string) string {
@@ -214,9 +215,9 @@ var alphabet = []Item{
 	{ID: "www-a", Lines: []string{"+www.example.com,192.0.2.1,300,,"}, Recs: []Rec{rA("www.example.com", "192.0.2.1", 300, "")}, Why: "plain A, explicit TTL"},
 	{ID: "www-a-aa", Lines: []string{"+www.example.com,192.0.2.2,,,aa"}, Recs: []Rec{rA("www.example.com", "192.0.2.2", ttlOther, "aa")}, Why: "default TTL, located"},
 	{ID: "www-a-bb", Lines: []string{"+www.example.com,192.0.2.3,300,,bb"}, Recs: []Rec{rA("www.example.com", "192.0.2.3", 300, "bb")}, Why: "foreign location for an aa client"},
-	{ID: "www-aaaa", Lines: []string{"+www.example.com,2001:db8::1,300,,"}, Recs: []Rec{rA("www.example.com", "2001:db8::1", 300, "")}, Why: "AAAA; NODATA for other types"},
-	{ID: "apex-a", Lines: []string{"+example.com,192.0.2.80,,,"}, Recs: []Rec{rA("example.com", "192.0.2.80", ttlOther, "")}, Why: "address at the apex, default TTL"},
-	{ID: "cname-c", Lines: []string{"Cc.example.com,www.example.com,300,,"}, Recs: []Rec{rName(tCNAME, "c.example.com", "www.example.com", 300, "")}, Why: "CNAME answered for every qtype"},
+	{ID: "www-aaaa", Aux: true, Lines: []string{"+www.example.com,2001:db8::1,300,,"}, Recs: []Rec{rA("www.example.com", "2001:db8::1", 300, "")}, Why: "AAAA; NODATA for other types"},
+	{ID: "apex-a", Aux: true, Lines: []string{"+example.com,192.0.2.80,,,"}, Recs: []Rec{rA("example.com", "192.0.2.80", ttlOther, "")}, Why: "address at the apex, default TTL"},
+	{ID: "cname-c", Aux: true, Lines: []string{"Cc.example.com,www.example.com,,,"}, Recs: []Rec{rName(tCNAME, "c.example.com", "www.example.com", ttlOther, "")}, Why: "CNAME answered for every qtype; default TTL"},
 	{ID: "wild-w", Lines: []string{"+*.w.example.com,192.0.2.10,300,,"}, Recs: []Rec{rA("*.w.example.com", "192.0.2.10", 300, "")}, Why: "wildcard"},
 	{ID: "wild-w-aa", Lines: []string{"+*.w.example.com,192.0.2.11,300,,aa"}, Recs: []Rec{rA("*.w.example.com", "192.0.2.11", 300, "aa")}, Why: "located wildcard"},
 	{ID: "wild-w-txt-bb", Lines: []string{"'*.w.example.com,bbonly,,,bb"}, Recs: []Rec{rTXT("*.w.example.com", "bbonly", ttlOther, "bb")}, Why: "wildcard that exists for one location only; other clients fall through to an outer wildcard"},
@@ -234,29 +235,29 @@ var alphabet = []Item{
 		rName(tNS, "deleg.example.com", "ns.deleg.example.com", 3600, ""),
 		rA("ns.deleg.example.com", "192.0.2.55", 3600, "")}, Why: "delegation with in-bailiwick glue"},
 	{ID: "deleg-aa", Lines: []string{"&deleg.example.com,,ns2.other.org,,,aa"}, Recs: []Rec{rName(tNS, "deleg.example.com", "ns2.other.org", ttlNS, "aa")}, Why: "located NS, default TTL, out-of-zone target, no glue"},
-	{ID: "deleg-glue6", Lines: []string{"+ns.deleg.example.com,2001:db8::55,3600,,"}, Recs: []Rec{rA("ns.deleg.example.com", "2001:db8::55", 3600, "")}, Why: "second glue family"},
+	{ID: "deleg-glue6", Aux: true, Lines: []string{"+ns.deleg.example.com,2001:db8::55,3600,,"}, Recs: []Rec{rA("ns.deleg.example.com", "2001:db8::55", 3600, "")}, Why: "second glue family"},
 	{ID: "below-deleg", Lines: []string{"+below.deleg.example.com,192.0.2.40,300,,"}, Recs: []Rec{rA("below.deleg.example.com", "192.0.2.40", 300, "")}, Why: "occluded data below the cut"},
 	{ID: "mx1", Lines: []string{"@example.com,192.0.2.60,mx1,10,300,,"}, Recs: []Rec{
 		rMX("example.com", 10, "mx1.mx.example.com", 300, ""),
 		rA("mx1.mx.example.com", "192.0.2.60", 300, "")}, Why: "MX with name expansion and its address"},
-	{ID: "mx-mail", Lines: []string{"@example.com,,mail.example.com,20,,,"}, Recs: []Rec{rMX("example.com", 20, "mail.example.com", ttlOther, "")}, Why: "MX, explicit host, default TTL, no address"},
-	{ID: "srv", Lines: []string{"S_s._tcp.example.com,192.0.2.61,srv1,443,1,2,300,,"}, Recs: []Rec{
-		rSRV("_s._tcp.example.com", 1, 2, 443, "srv1.srv._s._tcp.example.com", 300, ""),
-		rA("srv1.srv._s._tcp.example.com", "192.0.2.61", 300, "")}, Why: "SRV with expansion; underscore labels"},
+	{ID: "mx-mail", Aux: true, Lines: []string{"@example.com,,mail.example.com,20,,,"}, Recs: []Rec{rMX("example.com", 20, "mail.example.com", ttlOther, "")}, Why: "MX, explicit host, default TTL, no address"},
+	{ID: "srv", Aux: true, Lines: []string{"S_s._tcp.example.com,192.0.2.61,srv1,443,1,2,,,"}, Recs: []Rec{
+		rSRV("_s._tcp.example.com", 1, 2, 443, "srv1.srv._s._tcp.example.com", ttlOther, ""),
+		rA("srv1.srv._s._tcp.example.com", "192.0.2.61", ttlOther, "")}, Why: "SRV with expansion; underscore labels; default TTL"},
 	{ID: "arpa-zone", Lines: []string{".2.0.192.in-addr.arpa,,a.ns.example.com,,,"}, Recs: []Rec{
 		rSOA("2.0.192.in-addr.arpa", "a.ns.example.com", "hostmaster.2.0.192.in-addr.arpa", compileSerial, 16384, 2048, 1048576, 2560, ttlSOA, ""),
 		rName(tNS, "2.0.192.in-addr.arpa", "a.ns.example.com", ttlNS, "")}, Why: "second apex, all defaults, outside every map"},
-	{ID: "ptr-1", Lines: []string{"^1.2.0.192.in-addr.arpa,www.example.com,300,,"}, Recs: []Rec{rName(tPTR, "1.2.0.192.in-addr.arpa", "www.example.com", 300, "")}, Why: "PTR; REFUSED without its apex"},
-	{ID: "paddr-p", Lines: []string{"=p.example.com,192.0.2.70,300,,"}, Recs: []Rec{
+	{ID: "ptr-1", Lines: []string{"^1.2.0.192.in-addr.arpa,www.example.com,,,"}, Recs: []Rec{rName(tPTR, "1.2.0.192.in-addr.arpa", "www.example.com", ttlOther, "")}, Why: "PTR, default TTL; REFUSED without its apex"},
+	{ID: "paddr-p", Aux: true, Lines: []string{"=p.example.com,192.0.2.70,300,,"}, Recs: []Rec{
 		rA("p.example.com", "192.0.2.70", 300, ""),
 		rName(tPTR, "70.2.0.192.in-addr.arpa", "p.example.com", 300, "")}, Why: "composite A + PTR"},
-	{ID: "txt", Lines: []string{"'txt.example.com,hello world,300,,"}, Recs: []Rec{rTXT("txt.example.com", "hello world", 300, "")}, Why: "TXT"},
-	{ID: "txt-long", Lines: []string{"'txt.example.com," + longText + ",,,"}, Recs: []Rec{rTXT("txt.example.com", longText, ttlOther, "")}, Why: "200-byte text (chunked), default TTL"},
-	{ID: "gen-99", Lines: []string{":gen.example.com,99,\\003abc,300,,"}, Recs: []Rec{rRaw("gen.example.com", tSPF, "\x03abc", 300, "")}, Why: "generic record of a known type"},
-	{ID: "gen-65280", Lines: []string{":gen.example.com,65280,\\001\\002,,,"}, Recs: []Rec{rRaw("gen.example.com", tPRIV, "\x01\x02", ttlOther, "")}, Why: "generic record of an unknown type, default TTL"},
-	{ID: "svcb", Lines: []string{"Bsvc.example.com,target.example.com,300,,1,alpn=h2;port=443"}, Recs: []Rec{
+	{ID: "txt", Aux: true, Lines: []string{"'txt.example.com,hello world,300,,"}, Recs: []Rec{rTXT("txt.example.com", "hello world", 300, "")}, Why: "TXT"},
+	{ID: "txt-long", Aux: true, Lines: []string{"'txt.example.com," + longText + ",,,"}, Recs: []Rec{rTXT("txt.example.com", longText, ttlOther, "")}, Why: "200-byte text (chunked), default TTL"},
+	{ID: "gen-99", Aux: true, Lines: []string{":gen.example.com,99,\\003abc,300,,"}, Recs: []Rec{rRaw("gen.example.com", tSPF, "\x03abc", 300, "")}, Why: "generic record of a known type"},
+	{ID: "gen-65280", Aux: true, Lines: []string{":gen.example.com,65280,\\001\\002,,,"}, Recs: []Rec{rRaw("gen.example.com", tPRIV, "\x01\x02", ttlOther, "")}, Why: "generic record of an unknown type, default TTL"},
+	{ID: "svcb", Aux: true, Lines: []string{"Bsvc.example.com,target.example.com,300,,1,alpn=h2;port=443"}, Recs: []Rec{
 		rSVC(tSVCB, "svc.example.com", 1, "target.example.com", svcParam(1, "\x02h2")+svcParam(3, u16(443)), 300, "")}, Why: "SVCB"},
-	{ID: "svcb-dttl", Lines: []string{"Bsvc.example.com,target.example.com,,,2,port=8443"}, Recs: []Rec{
+	{ID: "svcb-dttl", Aux: true, Lines: []string{"Bsvc.example.com,target.example.com,,,2,port=8443"}, Recs: []Rec{
 		rSVC(tSVCB, "svc.example.com", 2, "target.example.com", svcParam(3, u16(8443)), ttlOther, "")}, Why: "SVCB with the TTL field left empty"},
 	{ID: "https-www", Lines: []string{"Hwww.example.com,.,300,,1,alpn=h2|h3;ipv4hint=192.0.2.1"}, Recs: []Rec{
 		rSVC(tHTTPS, "www.example.com", 1, ".", svcParam(1, "\x02h2\x02h3")+svcParam(4, "\xc0\x00\x02\x01"), 300, "")}, Why: "HTTPS with root target"},
